@@ -100,6 +100,26 @@ Proof. intros O orc e H. exact (build_tx_validates orc e H). Qed.
 Print Assumptions C06_validate.
 Check build_premises.
 
+(* build_tx as repaired in /repo 0fc161c (the fee request is compared with the stored fee first): the body's fee
+   also honours the request, whenever set_fee / set_min_fee were called (before or AFTER add_change) *)
+Theorem C06_policy_build :
+  forall (O : Type) (orc : @oracle O) (e : env), fee_exact e orc ->
+  forall body s s' (o o' : O),
+    build_tx6 orc s o = mkOut (Ok body) s' o' ->
+    exists F, get_fee_if_set s = Some F /\ b_fee body = F /\ need e s F <= F /\ policy_ok (s_fee_request s) F.
+Proof. intros O orc e H. exact (build_tx6_validates orc e H). Qed.
+Print Assumptions C06_policy_build.
+Check build6_premises.
+
+(* the code before the repair built a transaction with the computed fee although a different fee had been fixed *)
+Theorem C06_late_fee_request_legacy_refuted :
+  let orc := size_oracle Witness.e_main 4310 5000 in
+  let s1 := set_s_fee_request (FeeExactly 1000000) (out_st (add_change orc 10 1 0 Witness.s_tok tt)) in
+  (exists body, out_res (build_tx orc s1 tt) = Ok body /\ b_fee body = 165897) /\
+  out_res (build_tx6 orc s1 tt) = Err.
+Proof. exact late_fee_request_legacy_refuted. Qed.
+Print Assumptions C06_late_fee_request_legacy_refuted.
+
 (* add_inputs_from_and_change: on success the state is the one a successful add_change left (so C06_sufficient and
    C06_policy apply to it) *)
 Theorem C06_select :
